@@ -56,15 +56,46 @@ fn start_contract<const L: usize>()
     }
 }
 
-//# id=K.tracker.entity.start.L0 props=C03,C12 strength=complete shape="parked list L=0" tier=quick fns=EntityReactionAccessTracker::start
+//# id=K.tracker.entity.start.L0 props=C03,C12,C16 strength=complete shape="parked list L=0" tier=quick fns=EntityReactionAccessTracker::start
 #[kani::proof] #[kani::unwind(2)] fn k_tracker_entity_start_l0() { start_contract::<0>(); }
-//# id=K.tracker.entity.start.L1 props=C03,C12 strength=complete shape="parked list L=1, all contents" tier=quick fns=EntityReactionAccessTracker::start
+//# id=K.tracker.entity.start.L1 props=C03,C12,C16 strength=complete shape="parked list L=1, all contents" tier=quick fns=EntityReactionAccessTracker::start
 #[kani::proof] #[kani::unwind(3)] fn k_tracker_entity_start_l1() { start_contract::<1>(); }
-//# id=K.tracker.entity.start.L2 props=C03,C12 strength=complete shape="parked list L=2, all contents" tier=quick fns=EntityReactionAccessTracker::start
+//# id=K.tracker.entity.start.L2 props=C03,C12,C16 strength=complete shape="parked list L=2, all contents" tier=quick fns=EntityReactionAccessTracker::start
 #[kani::proof] #[kani::unwind(4)] fn k_tracker_entity_start_l2() { start_contract::<2>(); }
-//# id=K.tracker.entity.start.L3 props=C03,C12 strength=complete shape="parked list L=3, all contents" tier=quick fns=EntityReactionAccessTracker::start
+//# id=K.tracker.entity.start.L3 props=C03,C12,C16 strength=complete shape="parked list L=3, all contents" tier=quick fns=EntityReactionAccessTracker::start
 #[kani::proof] #[kani::unwind(5)] fn k_tracker_entity_start_l3() { start_contract::<3>(); }
-//# id=K.tracker.entity.start.L4 props=C03,C12 strength=complete shape="parked list L=4, all contents" tier=thorough fns=EntityReactionAccessTracker::start
+//# id=K.tracker.entity.start.L4 props=C03,C12,C16 strength=complete shape="parked list L=4, all contents" tier=thorough fns=EntityReactionAccessTracker::start
 #[kani::proof] #[kani::unwind(6)] fn k_tracker_entity_start_l4() { start_contract::<4>(); }
-//# id=K.tracker.entity.start.L5 props=C03,C12 strength=complete shape="parked list L=5, all contents" tier=thorough fns=EntityReactionAccessTracker::start
+//# id=K.tracker.entity.start.L5 props=C03,C12,C16 strength=complete shape="parked list L=5, all contents" tier=thorough fns=EntityReactionAccessTracker::start
 #[kani::proof] #[kani::unwind(7)] fn k_tracker_entity_start_l5() { start_contract::<5>(); }
+
+// ---------------------------------------------------------------------------------------------------------------
+// K.entity_world.local: EntityLocal<T> (C16): inside a run of reactor T's own system caused by entity e, get()/get_mut()/entity()
+// expose exactly e and the local data attached to e (writes through get_mut land on e's data); anywhere else - not reacting,
+// or reacting in ANOTHER system - every accessor panics (data of another reactor/entity is never exposed).
+// ---------------------------------------------------------------------------------------------------------------
+use crate::react::entity_world_reactor::verif_contracts::{DemoReactor, mk_local, mk_reactor, local_value};
+fn local_contract<const REACTING: bool, const SAME_SYSTEM: bool>() {
+    let e = Entity::verif_new(3, 1);
+    let sys = SystemCommand(Entity::verif_new(10, 1));
+    let other_sys = SystemCommand(Entity::verif_new(11, 1));
+    let v: u32 = kani::any();
+    let mut data = mk_local(v);
+    let mut res = EntityWorldReactorRes::<DemoReactor>::new(sys);
+    let tracker = EntityReactionAccessTracker{ currently_reacting: REACTING, system: if SAME_SYSTEM { sys } else { other_sys }, reaction_source: e,
+        reaction_type: EntityReactionType::Event(TypeId::of::<()>()), prepared: Vec::new() };
+    let dp: *mut _ = &mut data;
+    let mut l = EntityLocal::<DemoReactor>{ reactor: mk_reactor(Some(&mut res)), tracker: Res::verif_new(&tracker), data: Query::verif_single(e, Some(unsafe { &mut *dp })) };
+    // every accessor panics unless (REACTING && SAME_SYSTEM): the should_panic harnesses below cover those cases
+    assert!(l.entity() == e, "EntityLocal::entity: the entity that caused this run");
+    { let (ge, gv) = l.get(); assert!(ge == e && *gv == v, "EntityLocal::get: the local data attached to the entity that caused this run"); }
+    { let (ge, gv) = l.get_mut(); assert!(ge == e && *gv == v, "EntityLocal::get_mut: the local data attached to the entity that caused this run"); *gv = v.wrapping_add(1); }
+    assert!(local_value(unsafe { &*dp }) == v.wrapping_add(1), "EntityLocal::get_mut: modifications land on that entity's data (seen by later runs)");
+    core::mem::forget(l);
+}
+//# id=K.entity_world.local.own_run props=C16,C03 strength=complete shape="reacting, in the reactor's own system; local value symbolic" tier=quick fns=EntityLocal::entity,EntityLocal::get,EntityLocal::get_mut,EntityLocal::check
+#[kani::proof] #[kani::unwind(6)] fn k_entity_world_local_own_run() { local_contract::<true, true>(); }
+//# id=K.entity_world.local.not_reacting props=C16,C04 strength=complete shape="not reacting: accessor must panic" tier=quick fns=EntityLocal::entity,EntityLocal::check
+#[kani::proof] #[kani::unwind(6)] #[kani::should_panic] fn k_entity_world_local_not_reacting() { local_contract::<false, true>(); }
+//# id=K.entity_world.local.other_system props=C16,C04 strength=complete shape="reacting in another system: accessor must panic" tier=quick fns=EntityLocal::entity,EntityLocal::check
+#[kani::proof] #[kani::unwind(6)] #[kani::should_panic] fn k_entity_world_local_other_system() { local_contract::<true, false>(); }
